@@ -6,6 +6,11 @@ and simulated on a batch of operand vectors, then compared
               by Coq on the same operands (result value, result bitwidth, raising or not;
               `done` and the accumulator on every cycle for the sequential multipliers), and
   (b) SEARCH: with Python integer arithmetic (the specification).
+  (t) TRANSLATOR TIE: py/genfrag_C13.py regenerates coq/theories/Gen/C13Src.v from the current
+      source: every modelled function of adders.py / multipliers.py / libutils.py must be
+      AST-identical to its frozen template (py/c13_src_templates.py) outside 61 expression holes
+      (gates, loop conditions, guards, indices, width formulas), which are translated to Gallina;
+      Props/C13Src.v (Lib/C13SrcTie.v) proves each regenerated definition is what the model computes.
   (c) STRUCTURAL TIE (kogge_stone): the netlist is walked back from the final concat; the wire
       holding generate bit i after every prefix stage and the propagate wire every update reads
       are recovered, the wiring pattern (bit i of stage k reads bit i-2^k of stage k-1) is checked
@@ -19,6 +24,7 @@ from pyrtl.rtllib import adders, multipliers
 
 IMPORTS = 'From PyRTL Require Import Lib.C13Harness.'
 COQ_TARGETS = ['theories/Lib/C13Harness.vo']
+PROPS_FILES = ['theories/Props/C13.v', 'theories/Props/C13Src.v']
 RULE = ('generator x operand widths x parameters x operand values: kogge_stone, ripple_add, '
         'cla_adder(la_unit_len 1..5) with carry-in; tree_multiplier x {wallace,dada} x '
         '{kogge_stone,ripple_add,cla_adder}; signed_tree_multiplier; carrysave_adder x 3 final adders; '
@@ -32,7 +38,9 @@ RULE = ('generator x operand widths x parameters x operand values: kogge_stone, 
         'random values.  A case = (generator, parameters, widths, operand vector); it is non-trivial when '
         'at least one operand is non-zero.')
 ASSUMPTIONS = [
-    'int(math.ceil(math.log(k, 2))) is modelled as the exact ceil(log2 k) (true for the operand counts used)',
+    'the two float idioms of the source, int(math.ceil(math.log(k, 2))) and int(x * 3 / 2), are translated as the '
+    'exact Z.log2_up k and (x * 3) / 2; this is EVALUATED on every run (float_premise) for every operand count '
+    'k <= 4096 and every schedule value x <= 4096, far beyond the counts and column heights generated',
     'pyrtl.Simulation computes the documented semantics of the primitive gates (property C01); the exhaustive '
     'small-width sweeps are simulated with pyrtl.FastSimulation for speed (property C02), every other design '
     'with pyrtl.Simulation',
@@ -45,7 +53,10 @@ ASSUMPTIONS = [
     'direct calls of wallace_reducer/dada_reducer on arbitrary column profiles are compared with the '
     'model only (the property speaks about the adders/multipliers built on them)',
 ]
-TRUSTED = ['py/checks/C13.py: Python integer arithmetic a+b+cin, a*b, signed product mod 2^(wa+wb), '
+TRUSTED = ['py/genfrag_C13.py: template matcher + expression translator (^ & | on one-bit wires -> xorb andb orb; '
+           'int comparisons/arithmetic -> Z) producing Gen/C13Src.v; the control skeleton of each modelled function '
+           'is pinned to py/c13_src_templates.py (any edit outside an expression hole breaks the tie, fail closed)',
+           'py/checks/C13.py: Python integer arithmetic a+b+cin, a*b, signed product mod 2^(wa+wb), '
            'sum a_i*b_i + sum c_j as the specification of the generators',
            'Lib/BitList.v bval/sval/zbits (meaning of a bit list) and Lib/C13Harness.v glue']
 
@@ -1135,6 +1146,21 @@ def structural_kogge(ctx):
                                 'model_variant': 'current' if res['variant'] else 'pre-fix'})
 
 
+def float_premise(ctx):
+    """the translator maps int(math.ceil(math.log(k, 2))) to Z.log2_up k and int(x * 3 / 2) to (x * 3) / 2;
+    evaluate the real Python expressions against the exact integer functions"""
+    import math
+    bad = []
+    for k in range(1, 4097):
+        if int(math.ceil(math.log(k, 2))) != (k - 1).bit_length():
+            bad.append(('ceil(log2)', k))
+        if int(k * 3 / 2) != (k * 3) // 2:
+            bad.append(('x*3/2', k))
+    ctx.count('float_premise', 'checked 1..4096', 1)
+    if bad:
+        ctx.model_mismatch('float idiom differs from the exact integer function the translator emits', {'cases': bad[:10]})
+
+
 def run(ctx):
     import time
     t0 = time.time()
@@ -1165,6 +1191,7 @@ def run(ctx):
             compare_seq(ctx, col, job, res, model)
         else:
             compare_comb(ctx, col, job, res, model, variants)
+    float_premise(ctx)
     try:
         structural_kogge(ctx)
     except Exception as e:  # the structural tie must never hide the behavioural result
